@@ -74,10 +74,13 @@ func cpuSeconds(pid int) (float64, int64, bool) {
 func runProc(bin string, args []string, env []string, stderrPath string, budget float64, wall time.Duration, onEvent func(Event)) procOutcome {
 	cmd := exec.Command(bin, args...)
 	cmd.Env = env
-	stdout, err := cmd.StdoutPipe()
+	// own pipe: the reader must see everything the child wrote, including the
+	// final E record, before Wait is allowed to reap the process
+	stdout, pw, err := os.Pipe()
 	if err != nil {
 		return procOutcome{kind: "died", stderr: err.Error()}
 	}
+	cmd.Stdout = pw
 	ef, err := os.Create(stderrPath)
 	if err != nil {
 		return procOutcome{kind: "died", stderr: err.Error()}
@@ -85,8 +88,11 @@ func runProc(bin string, args []string, env []string, stderrPath string, budget 
 	defer ef.Close()
 	cmd.Stderr = ef
 	if err := cmd.Start(); err != nil {
+		pw.Close()
+		stdout.Close()
 		return procOutcome{kind: "died", stderr: err.Error()}
 	}
+	pw.Close()
 	var (
 		mu      sync.Mutex
 		lastID  string
@@ -97,6 +103,7 @@ func runProc(bin string, args []string, env []string, stderrPath string, budget 
 	readDone := make(chan struct{})
 	go func() {
 		defer close(readDone)
+		defer stdout.Close()
 		r := bufio.NewReaderSize(stdout, 1<<20)
 		for {
 			line, err := r.ReadBytes('\n')
@@ -189,11 +196,14 @@ loop:
 	switch {
 	case kind != "":
 		out.kind = kind
-	case werr == nil && ended:
+	case ended:
+		// the end-of-shard record was written: the body ran to completion (a -race
+		// build exits with status 66 when it reported races; those arrive through its log)
 		out.kind = "ok"
 	default:
 		out.kind = "died"
 	}
+	_ = werr
 	return out
 }
 
